@@ -18,6 +18,7 @@ func init() {
 		n := fs.Int("n", 2000, "")
 		errPct := fs.Int("errors", 0, "")
 		show := fs.Int("show", 25, "")
+		prop := fs.String("prop", "", "use this property's own program generator")
 		grep := fs.String("grep", "", "print every template of the first program whose error contains this")
 		fs.Parse(args)
 		num := regexp.MustCompile(`[0-9]+`)
@@ -27,7 +28,19 @@ func init() {
 		for i := 0; i < *n; i++ {
 			r := newR(uint64(i) + 77)
 			f := Feat{Spies: true, MapLoops: true, Include: r.P(70), Inherit: r.P(50), Macros: r.P(50), ErrorsPct: *errPct, Dashes: true}
-			p := genProgram(r, f)
+			var p *Program
+			switch *prop {
+			case "C03":
+				p = propC03{}.Gen(uint64(i)+77, map[string]bool{"print-struct-with-nested-pointer": true}).(*c03Sc).Prog
+			case "C14":
+				p = propC14{}.Gen(uint64(i)+77, map[string]bool{}).(*c14Sc).Prog
+			case "C16":
+				p = propC16{}.Gen(uint64(i)+77, map[string]bool{}).(*c16Sc).Prog
+			case "C17":
+				p = propC17{}.Gen(uint64(i)+77, map[string]bool{}).(*c17Sc).Prog
+			default:
+				p = genProgram(r, f)
+			}
 			w := simrt.Begin(simrt.Config{Seed: 1, PoolPolicy: simrt.PoolFresh})
 			_ = w
 			e := twig.New()
